@@ -2,7 +2,13 @@
      T <k>[/<req>] <r> <w> <op>...   the access trace the model prescribes for the ops run one after the other
                              (solo schedule, newest values) on a ring brought to heads (r, w) through the model's
                              own write/read calls;  M = results || trace,  S = results of a plain byte queue
-     X ...                   schedule-search cases: M = S = "ok" (the oracle runs in the C driver) *)
+     X ...                   schedule-search cases: M = S = "ok" (the oracle runs in the C driver)
+
+   W<n> / A<n> with n >= N = 2^k (anything up to 2^32-1): the source cannot be materialised as a list, so the model
+   program is built with a stand-in source of exactly N bytes.  Justified by Properties_C04_huge.v, theorem
+   ring_overlong_calls_irrelevant (with ring_overlong_programs): two writer programs that differ only in the
+   sources of calls whose sources both have >= N bytes give, on every schedule, the same access trace, the same
+   results and the same memory.  The spec side (byte queue of capacity N-1) refuses such a call outright. *)
 module String = Stdlib.String
 module List = Stdlib.List
 module Array = Stdlib.Array
@@ -56,8 +62,12 @@ let trace_case k r0 w0 (ops : op list) =
   let nn = 1 lsl k in
   let d = (w0 - r0) land (nn - 1) in
   datactr := 0;
-  (* data of the case's calls, in call order *)
-  let wdata = List.map (fun o -> if o.o = 'W' || o.o = 'A' then fill o.n else []) ops in
+  (* data of the case's calls, in call order; an over-long call (n >= N) gets the N-byte stand-in (theorem
+     ring_overlong_calls_irrelevant) and does not advance the data counter (the C driver does the same) *)
+  let overlong o = (o.o = 'W' || o.o = 'A') && o.n >= nn in
+  let wdata = List.map (fun o ->
+      if overlong o then List.init nn (fun _ -> zi 0x5A)
+      else if o.o = 'W' || o.o = 'A' then fill o.n else []) ops in
   let case_w = List.filter_map (fun (o, dat) ->
       match o.o with
       | 'W' -> Some (WWrite dat) | 'B' -> Some WBegin | 'A' -> Some (WAmend dat)
@@ -110,6 +120,8 @@ let trace_case k r0 w0 (ops : op list) =
   let s = List.map (fun (o, dat) ->
       let dat = List.map iz dat in
       match o.o with
+      | 'W' when overlong o -> intx := false; pend := []; "w=0"     (* more than the queue can ever hold: refused *)
+      | 'A' when overlong o -> "a=2"
       | 'W' -> intx := false; pend := [];
         if o.n <= cap - List.length !q then (q := !q @ dat; Printf.sprintf "w=%d" o.n) else "w=0"
       | 'B' -> intx := true; pend := []; "b"
